@@ -265,7 +265,7 @@ func (g *gen) rpmGroups(modules bool) (groups []ovGroup, shape int) {
 	}
 	pkgs := func() []stated {
 		var ps []stated
-		for i, n := 0, g.r.Intn(4); i < n; i++ {
+		for i, n := 0, 1+g.r.Intn(3); i < n; i++ {
 			ps = append(ps, pk())
 		}
 		return ps
@@ -507,7 +507,7 @@ func renderOval(d *ovDoc, g *gen) []byte {
 var oraclePlatforms = map[string]string{"Oracle Linux 5": "ol|5|Oracle Linux 5", "Oracle Linux 6": "ol|6|Oracle Linux 6", "Oracle Linux 7": "ol|7|Oracle Linux 7",
 	"Oracle Linux 8": "ol|8|Oracle Linux 8", "Oracle Linux 9": "ol|9|Oracle Linux 9"}
 
-var rhelDefKinds = []string{"rhsa", "rhsa", "rhsa", "rhba", "rhea", "cve", "cve", "unaffected", "none", "RHSA", "x1"}
+var rhelDefKinds = []string{"rhsa", "rhsa", "rhsa", "rhsa", "rhsa", "rhsa", "rhba", "rhea", "cve", "cve", "cve", "unaffected", "none", "RHSA", "x1"}
 
 func cpeValid(s string) bool {
 	_, err := cpe.Unbind(s)
@@ -520,7 +520,7 @@ func runOval(r *hx.Run, g *gen, cfg hx.Config) {
 	ovalWitnesses(r)
 	flavors := []string{"oracle", "suse", "photon", "rhel", "ubuntu"}
 	suseDist := &claircore.Distribution{Name: "SLES", DID: "sles", VersionID: "15.4", Version: "15-SP4", VersionCodeName: ""}
-	for it, n := 0, cfg.N(400, 15000); it < n && !r.Stop(); it++ {
+	for it, n := 0, cfg.N(2500, 15000); it < n && !r.Stop(); it++ {
 		fl := flavors[it%len(flavors)]
 		b := &ovBuilder{g: g, objs: map[string]string{}, dpkg: fl == "ubuntu"}
 		var parse func(ctx context.Context, feed []byte) ([]*claircore.Vulnerability, error)
@@ -614,7 +614,7 @@ func runOval(r *hx.Run, g *gen, cfg hx.Config) {
 		var flat []want    // what a walker pairing every package with every module comment of the definition returns
 		flattened := false // some definition has modules that do not scope over all of its packages
 		malformed := false
-		for di, nd := 0, g.r.Intn(4); di < nd; di++ {
+		for di, nd := 0, 1+g.r.Intn(3); di < nd; di++ {
 			d := ovDef{ID: b.id("def"), Class: g.r.Pick("patch", "vulnerability")}
 			g.defCommon(&d, sevs)
 			var protoDists, protoRepos []string // one entry per prototype vulnerability
@@ -641,11 +641,11 @@ func runOval(r *hx.Run, g *gen, cfg hx.Config) {
 				}
 				d.CPEs = []string{}
 				bad := false
-				for c, nc := 0, g.r.Intn(4); c < nc; c++ {
+				for c, nc := 0, 1+g.r.Intn(3); c < nc; c++ {
 					cp := g.r.Pick(cpePool...)
-					if g.r.Chance(1, 8) {
+					if g.r.Chance(1, 10) {
 						cp = ""
-					} else if g.r.Chance(1, 12) {
+					} else if g.r.Chance(1, 25) {
 						cp = g.r.Pick("notacpe", "cpe:/a:red hat:x", "cpe:2.3:a")
 					}
 					d.CPEs = append(d.CPEs, cp)
